@@ -86,6 +86,10 @@ func (c17) Generate(seed uint64, tier string, index int) any {
 			re.ErrorFromEnd = []int64{4, 8, 12, 13, 16, 20, 1, 24, 40}[g.R.Intn(9)]
 		}
 		re.ErrorMsg = fmt.Sprintf("simulated server failure #%d (disk on fire)", g.R.Intn(100000))
+		if g.R.Intn(3) == 0 {
+			// a message is data, not a format: paths and percentages occur in real ones
+			re.ErrorMsg = fmt.Sprintf("rsync: open \"/srv/100%%/d%d/%%s %%d %%v%%!.txt\" failed: 5%% of quota left (%%w)", g.R.Intn(1000))
+		}
 	}
 	out := &C17Scenario{Sync: sc, Re: re}
 	if (arr == "A2" || arr == "A3s") && g.R.Intn(2) == 0 {
